@@ -1,10 +1,12 @@
 //! `srv <property> --tier quick|thorough --shard i/n --out file`   run one shard of one check
 //! `srv replay <file>`                                             re-execute one recorded case
+mod asys;
 mod engines;
 mod gm;
 mod hooks;
 mod report;
 mod run;
+mod zoo;
 
 use report::*;
 use std::sync::{Arc, Mutex};
@@ -34,6 +36,7 @@ fn main() {
         let engine = v["engine"].as_str().unwrap_or("").to_string();
         let vs = match engine.as_str() {
             "e1" => engines::e1::replay(&v),
+            e if e.starts_with("e3") => engines::e3::replay(&v),
             other => {
                 eprintln!("unknown engine {other}");
                 std::process::exit(2);
@@ -101,6 +104,9 @@ fn main() {
             engines::e1::run_c12_graphs(&a, &shared);
         }
         "C13" => engines::e1::run_c13(&a, &shared),
+        "C06" => engines::e3::run_c06(&a, &shared),
+        "C07" => engines::e3::run_c07(&a, &shared),
+        "C09" => engines::e3::run_c09(&a, &shared),
         other => {
             eprintln!("unknown property {other}");
             std::process::exit(2);
